@@ -228,16 +228,39 @@ pub fn enc_call(include_invalid: bool, over: bool, with_control: bool) -> BoxedS
 /// Success responses, vendor / SPDM messages), decode-only calls, other
 /// encodes and UUID updates.
 pub fn sender_history() -> BoxedStrategy<Vec<Op>> {
-    let op = prop_oneof![
+    // a complete exchange: the context encodes a request and then processes the
+    // matching Success response (same command, instance id 0 as the library's
+    // requests carry) - what a requester's context sees all the time
+    let exchange = (req_call(false), addr7(), addr7(), any::<u8>(), prop_oneof![4 => Just(0u8), 1 => 0u8..32]).prop_map(|(call, dest, src, fill, iid)| {
+        let cmd = match refmodel::ref_encode(&call, 0) {
+            RefEnc::Packet(p) => p.body[1],
+            _ => 0x02,
+        };
+        let dl = match cmd {
+            0x01 => 3,
+            0x02 => 4,
+            0x03 => 16,
+            0x04 => 5,
+            0x08 => 4,
+            0x09 => 1,
+            _ => 2,
+        };
+        let data: Vec<u8> = (0..dl).map(|i| fill.wrapping_add(i as u8)).collect();
+        let resp = refmodel::build_control_response(src, dest, src, dest, iid, cmd, 0, &data);
+        vec![Op::Encode { call, dest }, Op::Process { bytes: resp, cap: 64, fill }]
+    });
+    let single = prop_oneof![
         5 => (ref_valid_packet(), 64u16..=128, any::<u8>()).prop_map(|(bytes, cap, fill)| Op::Process { bytes, cap, fill }),
         2 => (actionable_request(), 64u16..=128, any::<u8>()).prop_map(|(bytes, cap, fill)| Op::Process { bytes, cap, fill }),
         1 => ref_valid_packet().prop_map(|bytes| Op::Decode { bytes }),
         2 => (prop_oneof![req_call(false), resp_call(false)], addr7()).prop_map(|(call, dest)| Op::Encode { call, dest }),
         1 => uuid().prop_map(Op::SetUuid),
-    ];
+    ]
+    .prop_map(|op| vec![op]);
+    let element = prop_oneof![3 => single, 1 => exchange];
     prop_oneof![
         2 => Just(Vec::new()).boxed(),
-        1 => vec(op, 1..=3).boxed(),
+        1 => vec(element, 1..=3).prop_map(|v| v.into_iter().flatten().collect::<Vec<Op>>()).boxed(),
     ]
     .boxed()
 }
